@@ -159,22 +159,49 @@ def lfo_entries(col, facts):
         col.run('Lfo::get|' + shape, it, st, D.LFO + '::get', mk(it, st), [make_enum(facts, D.WAVE, shape)])
 
 
+def le_const(ctx, t, K, depth=0):
+    """t <= K on every valuation the context allows?  Decided semantically: interval / order facts first, then through the
+    outermost min / max / saturating cast, and for a real quotient by clearing positive denominators (x*d^-1 <= K  <=>
+    x <= K*d for d > 0).  True = proved; False = not proved."""
+    t = as_poly(t)
+    if ctx.decide(cmp_term('Le', t, K)) is True:
+        return True
+    l, h = ctx.rng(t)
+    if h <= K:
+        return True
+    if depth > 6:
+        return False
+    a = t.as_single_atom()
+    if a is not None:
+        if a[0] in ('min', 'fmin'):
+            return any(le_const(ctx, x, K, depth + 1) for x in a[1:] if isinstance(x, Poly))
+        if a[0] in ('max', 'fmax'):
+            return all(le_const(ctx, x, K, depth + 1) for x in a[1:] if isinstance(x, Poly))
+        if a[0] == 'f2i':
+            # trunc(x) clamped into [tlo, thi]: <= K when x <= K (K >= tlo)
+            return le_const(ctx, a[1], K, depth + 1)
+    # clear positive denominators
+    dens = set()
+    for m in t.t:
+        for b_, pw in m:
+            if pw < 0:
+                dens.add(b_)
+    for d in dens:
+        dl, dh = ctx.atom_range(d)
+        if dl > 0:
+            dp = Poly.atom(d)
+            if ctx.decide(cmp_term('Le', t * dp, Poly.const(K) * dp)) is True:
+                return True
+    return False
+
+
 def lfo_inc_inv(total, inv):
     def f(o, post):
-        # increment = trunc(2^T * f/fs) with f <= fs  =>  <= 2^T : relational, decided on the term
+        # e.g. increment = trunc(2^T * f/fs) with f <= fs  =>  <= 2^T : relational, decided on the term
         pa = post.get('phase_accumulator')
         inc = pa.get('increment').term
-        a = inc.as_single_atom()
-        ok = False
-        desc = repr(inc)
-        if a is not None and a[0] == 'f2i':
-            arg = a[1]   # 2^T * f * fs^-1
-            fs = Poly.sym('self.pa.sample_rate_hz')
-            f_ = Poly.sym('f')
-            if arg == Poly.const(1 << total) * f_ * inv_poly(fs):
-                ok = o.ctx.decide(cmp_term('Le', f_, fs)) is True
-                desc = 'increment = trunc(2^%d * f/fs) with f <= fs %s' % (total, 'implied' if ok else 'NOT implied')
-        return [(ok, 'increment <= 2^T (f <= fs): %s' % desc)]
+        ok = le_const(o.ctx, inc, 1 << total) and o.ctx.rng(inc)[0] >= 0
+        return [(ok, 'increment <= 2^T (f <= fs): %r' % (inc,))]
     return f
 
 
